@@ -7,6 +7,7 @@ import (
 	"fmt"
 	"io"
 	"os"
+	"sort"
 	"strings"
 
 	"github.com/folbricht/desync"
@@ -16,29 +17,61 @@ import (
 	"verifharness/internal/hx"
 )
 
-// ProtoCase: a casync protocol session (desync.Protocol client <-> desync.ProtocolServer over
-// two io.Pipes) requesting a sequence of chunks.
+// ProtoCase: casync protocol sessions (desync.Protocol clients <-> desync.ProtocolServer over
+// io.Pipe pairs, all servers on one store — what RemoteSSH keeps in its pool) requesting a
+// sequence of chunks. Every chunk a session returns is held and consumed later through its
+// storage form (held_test.go), after further requests re-used the session.
 type ProtoCase struct {
 	Store    string      `json:"store"` // mem | local | local-unc
 	Chunks   []ChunkSpec `json:"chunks"`
-	States   []string    `json:"states"`   // per chunk: present | missing | corrupt
-	Requests []int       `json:"requests"` // chunk numbers, in order
-	Break    string      `json:"break"`    // "" | close | cut
-	BreakAt  int         `json:"break_at"` // index of the request at which the connection breaks
+	States   []string    `json:"states"`             // per chunk: present | missing | corrupt
+	Requests []int       `json:"requests"`           // chunk numbers, in order
+	Sessions int         `json:"sessions,omitempty"` // number of sessions (default 1)
+	Sess     []int       `json:"sess,omitempty"`     // per request: the session it is sent on (default 0)
+	Checks   []int       `json:"checks,omitempty"`   // request indexes after which all held chunks are consumed (always after the history)
+	Break    string      `json:"break"`              // "" | close | cut; hits the session of request BreakAt
+	BreakAt  int         `json:"break_at"`           // index of the request at which the connection breaks
 	CutBytes int         `json:"cut_bytes"`
 }
 
 func genProto(t *rapid.T) ProtoCase {
 	var c ProtoCase
 	c.Store = rapid.SampledFrom([]string{"mem", "local", "local-unc"}).Draw(t, "store")
+	// order "desc": per session the present chunks are requested from large to small (a reply
+	// that fits into whatever the session kept from an earlier, larger reply), then the others
+	order := rapid.SampledFrom([]string{"free", "free", "desc", "desc", "desc"}).Draw(t, "order")
+	stateDist := []string{"present", "present", "present", "missing", "missing", "corrupt"}
+	if order == "desc" {
+		stateDist = []string{"present", "present", "present", "present", "present", "missing", "corrupt"}
+	}
 	n := rapid.IntRange(1, 4).Draw(t, "nchunks")
 	for i := 0; i < n; i++ {
-		c.Chunks = append(c.Chunks, genChunkSpec(t, "c"))
-		c.States = append(c.States, rapid.SampledFrom([]string{"present", "present", "present", "missing", "missing", "corrupt"}).Draw(t, "state"))
+		cs := genChunkSpec(t, "c")
+		if i > 0 && rapid.IntRange(0, 3).Draw(t, "samelen") == 0 {
+			// different content of the same kind and length: a reply of (about) equal size
+			cs.Kind, cs.Len = c.Chunks[i-1].Kind, c.Chunks[i-1].Len
+		}
+		c.Chunks = append(c.Chunks, cs)
+		c.States = append(c.States, rapid.SampledFrom(stateDist).Draw(t, "state"))
 	}
 	nreq := rapid.IntRange(1, 8).Draw(t, "nreq")
+	c.Sessions = rapid.SampledFrom([]int{1, 1, 2, 2, 3}).Draw(t, "sessions")
 	for i := 0; i < nreq; i++ {
 		c.Requests = append(c.Requests, rapid.IntRange(0, n-1).Draw(t, "req"))
+		c.Sess = append(c.Sess, rapid.IntRange(0, c.Sessions-1).Draw(t, "sess"))
+	}
+	if order == "desc" {
+		sort.SliceStable(c.Requests, func(a, b int) bool {
+			ca, cb := c.Requests[a], c.Requests[b]
+			pa, pb := c.States[ca] == "present", c.States[cb] == "present"
+			if pa != pb {
+				return pa
+			}
+			return pa && c.Chunks[ca].Len > c.Chunks[cb].Len
+		})
+	}
+	for i, k := 0, rapid.IntRange(0, 2).Draw(t, "nchecks"); i < k; i++ {
+		c.Checks = append(c.Checks, rapid.IntRange(0, nreq-1).Draw(t, "check"))
 	}
 	c.Break = rapid.SampledFrom([]string{"", "", "", "close", "cut"}).Draw(t, "break")
 	if c.Break != "" {
@@ -79,6 +112,78 @@ func frameRelay(src *io.PipeReader, dst *io.PipeWriter, cutMsg, cutBytes int, do
 	}
 }
 
+// countingReader counts the bytes the client takes off its connection (the size of a reply).
+type countingReader struct {
+	r io.Reader
+	n int
+}
+
+func (c *countingReader) Read(p []byte) (int, error) {
+	n, err := c.r.Read(p)
+	c.n += n
+	return n, err
+}
+
+// protoSession is one client <-> server connection: client --c2s--> server,
+// server --s2c--> [relay] --> client.
+type protoSession struct {
+	c2sR      *io.PipeReader
+	c2sW      *io.PipeWriter
+	s2cR      *io.PipeReader
+	s2cW      *io.PipeWriter
+	relayDone chan struct{}
+	relayEnds []io.Closer
+	serveDone chan error
+	in        *countingReader
+	client    *desync.Protocol
+	usable    bool // the handshake worked
+	alive     bool // the session is expected to answer the next request properly
+	broken    bool // the connection has been broken by the case
+	replies   int  // requests sent so far
+}
+
+// openSession wires a session; cutMsg > 0 puts a relay on the server->client direction that cuts
+// message number cutMsg (0 = the HELLO) short.
+func openSession(store desync.Store, cutMsg, cutBytes int) *protoSession {
+	s := &protoSession{}
+	s.c2sR, s.c2sW = io.Pipe()
+	s.s2cR, s.s2cW = io.Pipe()
+	clientR := s.s2cR
+	if cutMsg > 0 {
+		midR, midW := io.Pipe()
+		s.relayDone = make(chan struct{})
+		go frameRelay(s.s2cR, midW, cutMsg, cutBytes, s.relayDone)
+		clientR = midR
+		s.relayEnds = []io.Closer{midR, midW}
+	}
+	server := desync.NewProtocolServer(s.c2sR, s.s2cW, store)
+	s.serveDone = make(chan error, 1)
+	go func() {
+		err := server.Serve(context.Background())
+		// a server process that returns from Serve exits: its ends of the pipes close
+		s.c2sR.Close()
+		s.s2cW.Close()
+		s.serveDone <- err
+	}()
+	s.in = &countingReader{r: clientR}
+	s.client = desync.NewProtocol(s.in, s.c2sW)
+	return s
+}
+
+func (s *protoSession) shutdown() {
+	s.c2sW.Close()
+	s.c2sR.Close()
+	s.s2cW.Close()
+	s.s2cR.Close()
+	for _, e := range s.relayEnds {
+		e.Close()
+	}
+	<-s.serveDone
+	if s.relayDone != nil {
+		<-s.relayDone
+	}
+}
+
 func runProto(c ProtoCase) (o hx.Outcome) {
 	n := len(c.Chunks)
 	data := make([][]byte, n)
@@ -98,7 +203,7 @@ func runProto(c ProtoCase) (o hx.Outcome) {
 		}
 	}
 
-	// ---- the store behind the server
+	// ---- the store behind the servers
 	var store desync.Store
 	storeKind := c.Store
 	switch storeKind {
@@ -137,12 +242,21 @@ func runProto(c ProtoCase) (o hx.Outcome) {
 		store = ms
 	}
 
-	// ---- wiring: client --c2s--> server, server --s2c--> [relay] --> client
-	c2sR, c2sW := io.Pipe()
-	s2cR, s2cW := io.Pipe()
-	clientR := s2cR
-	var relayDone chan struct{}
-	var relayEnds []io.Closer
+	// ---- the history: which request goes to which session
+	nsess := c.Sessions
+	if nsess < 1 {
+		nsess = 1
+	}
+	if nsess > 8 {
+		nsess = 8
+	}
+	sessOf := func(ri int) int {
+		if ri < len(c.Sess) && c.Sess[ri] > 0 {
+			return c.Sess[ri] % nsess
+		}
+		return 0
+	}
+	valid := func(ri int) bool { return c.Requests[ri] >= 0 && c.Requests[ri] < n }
 	brk := c.Break
 	breakAt := c.BreakAt
 	if brk != "close" && brk != "cut" {
@@ -151,81 +265,106 @@ func runProto(c ProtoCase) (o hx.Outcome) {
 	if breakAt < 0 {
 		breakAt = 0
 	}
-	if brk == "cut" {
-		midR, midW := io.Pipe()
-		relayDone = make(chan struct{})
-		go frameRelay(s2cR, midW, breakAt+1, c.CutBytes&0x7fffffff, relayDone)
-		clientR = midR
-		relayEnds = []io.Closer{midR, midW}
+	brkSess, cutMsg := -1, 0
+	if brk != "" && breakAt < len(c.Requests) {
+		brkSess = sessOf(breakAt)
+		if brk == "cut" {
+			// the reply to request breakAt is message 1 + (earlier requests on that session)
+			cutMsg = 1
+			for ri := 0; ri < breakAt; ri++ {
+				if valid(ri) && sessOf(ri) == brkSess {
+					cutMsg++
+				}
+			}
+		}
 	}
-	server := desync.NewProtocolServer(c2sR, s2cW, store)
-	serveDone := make(chan error, 1)
-	go func() {
-		err := server.Serve(context.Background())
-		// a server process that returns from Serve exits: its ends of the pipes close
-		c2sR.Close()
-		s2cW.Close()
-		serveDone <- err
-	}()
-	closeAll := func() {
-		c2sW.Close()
-		c2sR.Close()
-		s2cW.Close()
-		s2cR.Close()
-		for _, e := range relayEnds {
-			e.Close()
+	checkAfter := map[int]bool{}
+	for _, k := range c.Checks {
+		checkAfter[k] = true
+	}
+
+	// ---- wiring
+	sessions := make([]*protoSession, nsess)
+	for si := range sessions {
+		if si == brkSess && cutMsg > 0 {
+			sessions[si] = openSession(store, cutMsg, c.CutBytes&0x7fffffff)
+		} else {
+			sessions[si] = openSession(store, 0, 0)
 		}
 	}
 	defer func() {
-		closeAll()
-		<-serveDone
-		if relayDone != nil {
-			<-relayDone
+		for _, s := range sessions {
+			s.shutdown()
 		}
 	}()
+	held := newHeldSet("proto")
+	defer held.close()
 
-	client := desync.NewProtocol(clientR, c2sW)
-	flags, err := client.Initialize(desync.CaProtocolPullChunks)
-	if err != nil {
-		o.Fail("C14:proto:handshake", "Initialize over healthy pipes failed: %v", err)
-	} else if flags&desync.CaProtocolReadableStore == 0 {
-		o.Fail("C14:proto:handshake", "server HELLO flags %x do not offer a readable store", flags)
+	for si, s := range sessions {
+		flags, err := s.client.Initialize(desync.CaProtocolPullChunks)
+		if err != nil {
+			o.Fail("C14:proto:handshake", "Initialize over healthy pipes failed (session %d): %v", si, err)
+		} else if flags&desync.CaProtocolReadableStore == 0 {
+			o.Fail("C14:proto:handshake", "server HELLO flags %x do not offer a readable store (session %d)", flags, si)
+		}
+		s.usable = err == nil
+		s.alive = err == nil
 	}
 
-	alive := err == nil // the session is expected to answer the next request properly
-	broken := false     // the connection has been broken by the case
+	type okReply struct{ session, seq, ci, wire int }
+	var okReplies []okReply
 	var shape []string
-	sawPresent, sawOther := false, false
+	sawPresent, sawOther, anyBroken := false, false, false
+	intermediate := false
 	for ri, ci := range c.Requests {
-		if err != nil {
-			break
-		}
-		if ci < 0 || ci >= n {
+		if !valid(ri) {
 			continue
 		}
-		if brk == "close" && ri == breakAt && !broken {
+		si := sessOf(ri)
+		s := sessions[si]
+		if !s.usable {
+			continue
+		}
+		if brk == "close" && ri == breakAt && !s.broken {
 			// the server side of the connection goes away before the request
-			c2sR.Close()
-			s2cW.Close()
-			broken = true
+			s.c2sR.Close()
+			s.s2cW.Close()
+			s.broken = true
 		}
 		if brk == "cut" && ri == breakAt {
-			broken = true // the reply to this request is cut short by the relay
+			s.broken = true // the reply to this request is cut short by the relay
 		}
 		st := states[ci]
-		ch, rerr := client.RequestChunk(ids[ci])
+		before := s.in.n
+		ch, rerr := s.client.RequestChunk(ids[ci])
+		wireLen := s.in.n - before
+		s.replies++
+		for _, h := range held.chunks {
+			if h.session == si {
+				h.reused = true // the session has been used again since the chunk was handed out
+			}
+		}
 		res, detail := classifyGet(ch, rerr, ids[ci], data[ci])
 		tag := st[:1]
-		if broken {
+		if nsess > 1 {
+			tag += fmt.Sprint(si)
+		}
+		if s.broken {
 			tag += "!"
-		} else if !alive {
+			anyBroken = true
+		} else if !s.alive {
 			tag += "~"
 		}
 		shape = append(shape, tag)
-		what := fmt.Sprintf("request %d (chunk %d, %d bytes, %s; store %s; broken=%v after-end-of-session=%v): got %s %s",
-			ri, ci, len(data[ci]), st, storeKind, broken, !alive, res, clip(detail))
+		what := fmt.Sprintf("request %d (chunk %d, %d bytes, %s; store %s; session %d of %d; broken=%v after-end-of-session=%v): got %s %s",
+			ri, ci, len(data[ci]), st, storeKind, si, nsess, s.broken, !s.alive, res, clip(detail))
+		if res == resOK && st == "present" {
+			held.hold(&heldChunk{ch: ch, id: ids[ci], want: data[ci], session: si, seq: ri, wire: wireLen,
+				label: fmt.Sprintf("request %d (chunk %d, session %d)", ri, ci, si)})
+			okReplies = append(okReplies, okReply{si, ri, ci, wireLen})
+		}
 		switch {
-		case broken:
+		case s.broken:
 			o.Class("proto:break:" + brk)
 			// broken pipe => error; never data, never "missing"
 			switch res {
@@ -234,7 +373,7 @@ func runProto(c ProtoCase) (o hx.Outcome) {
 			case resMissing:
 				o.Fail(sig("proto", "failure", resMissing), "connection broken but the chunk was reported missing — %s", what)
 			}
-		case !alive:
+		case !s.alive:
 			// the server has (acceptably) ended the session after MISSING or a store failure:
 			// an error is fine, a wrong answer is not
 			o.Class("proto:after-session-end")
@@ -259,7 +398,7 @@ func runProto(c ProtoCase) (o hx.Outcome) {
 				if res != resMissing {
 					o.Fail(sig("proto", "missing", res), "%s", what)
 				}
-				alive = false
+				s.alive = false
 			case "corrupt":
 				sawOther = true
 				switch res {
@@ -268,22 +407,81 @@ func runProto(c ProtoCase) (o hx.Outcome) {
 				case resMissing:
 					o.Fail(sig("proto", "failure", resMissing), "%s", what)
 				}
-				alive = false
+				s.alive = false
 			}
 			if res != resOK {
-				alive = false
+				s.alive = false
 			}
 		}
-	}
-	if alive && !broken {
-		if gerr := client.SendGoodbye(); gerr != nil {
-			o.Fail("C14:proto:goodbye", "SendGoodbye on a healthy session failed: %v", gerr)
-		} else if serr := <-serveDone; serr != nil {
-			o.Fail("C14:proto:goodbye", "server did not end cleanly after GOODBYE: %v", serr)
-			serveDone <- serr
-		} else {
-			serveDone <- nil
+		if checkAfter[ri] && len(held.chunks) > 0 {
+			intermediate = true
+			held.consumeAll(&o, fmt.Sprintf("after request %d", ri))
 		}
+	}
+	for si, s := range sessions {
+		if !s.usable || !s.alive || s.broken {
+			continue
+		}
+		if gerr := s.client.SendGoodbye(); gerr != nil {
+			o.Fail("C14:proto:goodbye", "SendGoodbye on a healthy session (%d) failed: %v", si, gerr)
+		} else {
+			serr := <-s.serveDone
+			if serr != nil {
+				o.Fail("C14:proto:goodbye", "server of session %d did not end cleanly after GOODBYE: %v", si, serr)
+			}
+			s.serveDone <- serr
+		}
+	}
+	held.consumeAll(&o, "after the history")
+
+	// ---- classes of the held-chunk part
+	consumedLater, largeThenSmall, repeatID, thenMissing := false, false, false, false
+	heldSessions := map[int]bool{}
+	seenID := map[desync.ChunkID]bool{}
+	for _, h := range held.chunks {
+		heldSessions[h.session] = true
+		if seenID[h.id] {
+			repeatID = true
+		}
+		seenID[h.id] = true
+		if h.reused {
+			consumedLater = true
+		}
+		for _, r := range okReplies {
+			// a later reply on the same session with different content that is not larger
+			if r.session == h.session && r.seq > h.seq && ids[r.ci] != h.id && r.wire <= h.wire {
+				largeThenSmall = true
+			}
+		}
+		if h.reused && !sessions[h.session].alive && !sessions[h.session].broken {
+			thenMissing = true
+		}
+	}
+	if len(held.chunks) > 0 {
+		o.Class("proto:held")
+	}
+	if consumedLater {
+		o.Class("proto:held-consumed-later")
+	}
+	if largeThenSmall {
+		o.Class("proto:large-then-small")
+	}
+	if repeatID {
+		o.Class("proto:held-repeat-id")
+	}
+	if thenMissing {
+		o.Class("proto:held-then-session-end")
+	}
+	if len(heldSessions) > 1 {
+		o.Class("proto:held-on-several-sessions")
+	}
+	if intermediate {
+		o.Class("proto:check:intermediate")
+	}
+	if nsess > 1 {
+		o.Class("proto:sessions:2+")
+	} else {
+		o.Class("proto:sessions:1")
 	}
 
 	o.Class("proto:store:" + storeKind)
@@ -291,8 +489,9 @@ func runProto(c ProtoCase) (o hx.Outcome) {
 	for i := range data {
 		lens[i] = len(data[i])
 	}
-	o.Nontrivial = (sawPresent && sawOther) || (broken && len(shape) > 0)
-	o.Desc = map[string]any{"mode": "proto", "store": storeKind, "chunk_lens": lens, "states": states, "requests": strings.Join(shape, " "), "break": brk}
-	o.Key = fmt.Sprintf("proto/%s/%v/%v/%s/%s/%d", storeKind, lens, states, strings.Join(shape, ""), brk, breakAt)
+	o.Nontrivial = (sawPresent && sawOther) || (anyBroken && len(shape) > 0) || largeThenSmall
+	o.Desc = map[string]any{"mode": "proto", "store": storeKind, "chunk_lens": lens, "states": states, "requests": strings.Join(shape, " "), "break": brk,
+		"sessions": nsess, "checks": c.Checks, "held": len(held.chunks), "held_consumptions": held.consumed}
+	o.Key = fmt.Sprintf("proto/%s/%v/%v/%s/%s/%d/%d/%v", storeKind, lens, states, strings.Join(shape, ""), brk, breakAt, nsess, c.Checks)
 	return o
 }
